@@ -19,6 +19,7 @@ package publish
 
 //@ func CloudflarePublisher.getZoneData returns (err)
 //@   trusted
+//@   callsite "q.Set(\"type\"" requires[F:only-https-records] arg1 == "HTTPS"
 //@   requires cf != nil && data != nil
 //@   modifies mapOf(data), mapOf(cf.zoneIDs)
 //@   ensures old(inSync(data)) ==> inSync(data)
